@@ -433,6 +433,11 @@ def fixed_corpus():
     # configured: the error callback has to see the span of the rejected match
     out.append(Def([L('regex', '[0-9]+', cb=25), L('regex', '[0-9]+\\.[0-9]+', cb=1), L('regex', '[a-z]+', cb=26), L('regex', '[a-z]+-=', cb=9), L('regex', '[A-Z]+y?', cb=12, value=True),
                     L('skip', ' +')], errcb=True, origin='fixed:errcb-fallback'))
+    # byte-mode lexers whose patterns are written for text: loops over classes that contain every non-ASCII character (round 28:
+    # they never match bytes that are not well-formed UTF-8, and a character cut short by the end of the input ends the token)
+    out.append(Def([L('regex', '[^;]+'), L('token', ';')], utf8=False, origin='fixed:bytes-text-loops'))
+    out.append(Def([L('regex', '"[^"]*"'), L('regex', '//[^\\n]*', allow_greedy=True), L('regex', '[a-z]+'), L('skip', '[ \\n]')], utf8=False, origin='fixed:bytes-text-loops2'))
+    out.append(Def([L('regex', '.+', allow_greedy=True), L('token', '\n')], utf8=False, origin='fixed:bytes-text-loops3'))
     # a plain skip that is a proper prefix of a longer pattern, the longer one cut short by the end of the input (round 28)
     out.append(Def([L('skip', '[ \\t]+'), L('regex', '[a-z]+'), L('regex', '[ \\t]*\\r\\n'), L('regex', ' *;;')], origin='fixed:skip-prefix-eoi'))
     # the same pattern text with and without ignore(case) in one definition (round 28: a cache of parsed patterns keyed without the flag)
